@@ -145,7 +145,7 @@ class Obligation:
 
 
 class PanicInventory:
-    def __init__(self, prog, models=None, log_on=True, no_inline=None, page_terms=None):
+    def __init__(self, prog, models=None, log_on=True, no_inline=None, page_terms=None, expected_panic=None):
         self.prog = prog
         self.models = models or Models(prog)
         self.log_on = log_on
@@ -156,6 +156,7 @@ class PanicInventory:
         self.paths = 0
         self.fmt_types = set()
         self.is_page_term = page_terms or (lambda t: False)
+        self.expected_panic = expected_panic or (lambda p, e: False)
 
     def ob(self, kind, w, desc, sig):
         where, fn = site_of(w)
@@ -235,6 +236,8 @@ class PanicInventory:
                     self.settle(o, "D1 decided by the path's own tests")
                 else:
                     self.settle(o, *self.discharge_assert(ev, st, iv, "BoundsCheck", cond))
+            elif k == "panic" and self.expected_panic(p, e):
+                continue      # a documented panic, characterised exactly by the property's own rule
             elif k == "panic":
                 # explicit panic / failed concrete assert / unwrap on a concrete Err/None, on a feasible path
                 o = self.ob("panic", e[3], "reachable panic: %s" % e[1], str(e[1]))
@@ -371,16 +374,20 @@ class PanicInventory:
             elif base[0] == "bytes":
                 k = len(base[1])
             return (k, 255 if iv.is_bytes(base) or base[0] == "bytes" else None)
+        if it[1] == "copied":
+            return self.iter_bounds(ev, st, iv, it[2])
         if it[1] == "map":
             k, m = self.iter_bounds(ev, st, iv, it[2])
+            by_value = it[2][0] == "iter" and it[2][1] == "copied"
             # item bound through the closure: evaluate it on a symbolic element
             from models import apply_closure
 
             class _CI:
                 pass
             ci = _CI()
-            ci.ev, ci.st = ev, st
-            elem = ("ref", ("val", ("sym", "elem", "u8"), ()), False) if m == 255 else None
+            ci.ev, ci.st = ev, st.fork()
+            ci.w = "?"
+            elem = (("sym", "elem", "u8") if by_value else ("ref", ("val", ("sym", "elem", "u8"), ()), False)) if m == 255 else None
             if elem is None:
                 return (k, None)
             r = apply_closure(ci, it[3], [elem])
